@@ -5,6 +5,7 @@ import PlatypusModel.Model.Constraint
 import PlatypusModel.Model.PyFloat
 import PlatypusModel.Model.Epsilon
 import PlatypusModel.Model.Sorting
+import PlatypusModel.Model.Grid
 open Wire Platypus
 
 namespace Ops
@@ -186,8 +187,34 @@ def opsSorting (op : String) : Option (P String) :=
       pure ("p " ++ showNats (res.map (·.id)))
   | _ => none
 
+def boundsF (nobjs : Nat) (contents : List (Sol Float)) : List Float × List Float :=
+  let lo := (List.range nobjs).map fun i => contents.foldl (fun m s => pyMin m (s.objs.getD i 0.0)) INF
+  let hi := (List.range nobjs).map fun i => contents.foldl (fun m s => pyMax m (s.objs.getD i 0.0)) (-INF)
+  (lo, hi)
+
+def gridCfgF (capacity nobjs divisions : Nat) (fixed c : Bool) (dirs : List Bool) :
+    GridCfg (Sol Float) (List Float × List Float) :=
+  { cmp := paretoCompare c dirs, getId := (·.id), mkBounds := boundsF nobjs,
+    cell := fun b s => findIndex Float.ofNat (fun x => x.toUInt64.toNat) divisions b.1 b.2 (s.objs.take nobjs),
+    ncells := divisions ^ nobjs, capacity := capacity, adaptOnEvict := fixed }
+
+def showGrid (g : GridArchive (Sol Float) (List Float × List Float)) (flag : Bool) : String :=
+  s!"{if flag then 1 else 0}:{showIds (g.contents.map (·.id))}:{",".intercalate (g.bounds.1.map showFlt)}:{",".intercalate (g.bounds.2.map showFlt)}:{",".intercalate (g.density.map toString)}"
+
+def opsGrid (op : String) : Option (P String) :=
+  match op with
+  | "gridF" => some do
+      let capacity ← nat; let nobjs ← nat; let divisions ← nat; let fixed ← bool
+      let c ← bool; let dirs ← list bool; let xs ← list solF
+      let cfg := gridCfgF capacity nobjs divisions fixed c dirs
+      let (_, out) := xs.foldl (fun (st : GridArchive (Sol Float) (List Float × List Float) × List String) s =>
+        let r := gridAdd cfg st.1 s
+        (r.1, showGrid r.1 r.2 :: st.2)) (gridInit cfg, [])
+      pure (if out.isEmpty then "-" else " ".intercalate out.reverse)
+  | _ => none
+
 def dispatch (op : String) (args : List String) : Except String String :=
-  match (opsGray op <|> opsDominance op <|> opsConstraint op <|> opsEps op <|> opsSorting op) with
+  match (opsGray op <|> opsDominance op <|> opsConstraint op <|> opsEps op <|> opsSorting op <|> opsGrid op) with
   | some p => Wire.run p args
   | none => .error "bad-op"
 
